@@ -56,6 +56,7 @@ class State:
         self.log = []  # (target, term) writes by `me`
         self.objs = {}  # id(python object) -> z3 const
         self.unknown_writes = []
+        self.concrete_local = None   # ("absent",) | ("present", object): scenario in which the entering thread's slot is known concretely (aliasing obligations)
 
     def active(self, present=None, val=None, shared=None):
         present = self.present if present is None else present
@@ -107,6 +108,9 @@ def make_ghost(which):
             if key != "backend":
                 st.unknown_writes.append(("read-local", key))
                 return default
+            if st.concrete_local is not None and self.th is st.me and not any(t.startswith("local[me]") for t, _ in st.log):
+                # identity-preserving reads for the aliasing scenarios (`is` tests in the code): the thread's slot is known to be empty / to hold this object
+                return default if st.concrete_local[0] == "absent" else st.concrete_local[1]
             d = st.term_of(default) if default is not None else fresh("none", Bk)
             return SymB(z3.If(z3.Select(st.present, self.th), z3.Select(st.val, self.th), d))
 
@@ -291,9 +295,24 @@ def ob_current(Ghost, SymB, st):
 def _set_instance(local, alias=None):
     def f(Ghost, SymB, st):
         res = []
+        hyps = []
         if alias == "shared-default":
             # the argument IS the object currently published as the shared default (identity / equality tests in the code take that branch)
             b = Ghost.__dict__["_backend"]
+            import contextlib as _cl
+            ctxm = _cl.nullcontext()
+        elif alias == "shared-default, thread never selected":
+            # ... and the thread has no selection of its own, so that object is also what current_backend() returns, identically
+            b = Ghost.__dict__["_backend"]
+            st.concrete_local = ("absent",)
+            hyps = [z3.Not(z3.Select(st.p0, st.me))]
+            import contextlib as _cl
+            ctxm = _cl.nullcontext()
+        elif alias == "own private selection":
+            # the argument IS the object the thread already holds privately (selecting it again - globally - must still publish it)
+            b = SymB(z3.Const("b", Bk))
+            st.concrete_local = ("present", b)
+            hyps = [z3.Select(st.p0, st.me), z3.Select(st.v0, st.me) == b._vt_term]
             import contextlib as _cl
             ctxm = _cl.nullcontext()
         else:
@@ -301,8 +320,8 @@ def _set_instance(local, alias=None):
             ctxm = interference(st)
         with ctxm:
             Ghost.set_backend(b, local_threadsafe=local)
-        res.append(("local[me] == b after set_backend",) + valid(z3.And(z3.Select(st.present, st.me), z3.Select(st.val, st.me) == b._vt_term)))
-        res.append(("active(me) == b",) + valid(st.active() == b._vt_term))
+        res.append(("local[me] == b after set_backend",) + valid(z3.And(z3.Select(st.present, st.me), z3.Select(st.val, st.me) == b._vt_term), *hyps))
+        res.append(("active(me) == b",) + valid(st.active() == b._vt_term, *hyps))
         if local:
             _check_frame(st, res, ["local[me]"])
         else:
@@ -697,6 +716,20 @@ def scenario_local_same_as_default():
 
 
 @_restore
+def scenario_private_then_global():
+    """a thread holds `einsum` privately and then selects it globally: threads without a selection must now observe it"""
+    import tensorly.tenalg as tenalg
+    tenalg.set_backend("core")
+    def a():
+        tenalg.set_backend("einsum", local_threadsafe=True)
+        tenalg.set_backend(tenalg.current_backend())          # the very object it holds, global flavour
+        return tenalg.get_backend()
+    mine = _in_thread(a)
+    other = _in_thread(lambda: tenalg.get_backend())
+    return other == "einsum", f"the selecting thread observes {mine!r}; a thread without a selection observes {other!r} after the global selection"
+
+
+@_restore
 def scenario_dispatch_other_thread():
     """a dispatched function called in a worker thread with a thread-local selection must run the worker's backend"""
     import tensorly.tenalg as tenalg
@@ -732,6 +765,10 @@ def obligations(tier):
             obs.append(GhostOb(which, f"set_backend(instance) [{fl}]", _set_instance(local), instance=dict(flavour=fl, argument="instance"), clause="write contract + frame"))
             obs.append(GhostOb(which, f"set_backend(the current shared default instance) [{fl}]", _set_instance(local, "shared-default"), scenario=scenario_local_same_as_default,
                                instance=dict(flavour=fl, argument="instance-is-shared-default"), clause="write contract + frame (aliasing case)"))
+            obs.append(GhostOb(which, f"set_backend(the shared default instance, by a thread that never selected: the backend it already observes) [{fl}]", _set_instance(local, "shared-default, thread never selected"),
+                               scenario=scenario_local_same_as_default, instance=dict(flavour=fl, argument="instance-is-what-the-thread-observes"), clause="write contract + frame (aliasing case)"))
+            obs.append(GhostOb(which, f"set_backend(the instance the thread already holds privately) [{fl}]", _set_instance(local, "own private selection"),
+                               scenario=scenario_private_then_global, instance=dict(flavour=fl, argument="instance-is-own-private-selection"), clause="write contract + frame (aliasing case)"))
             for preload in (False, True):
                 obs.append(GhostOb(which, f"set_backend(known name, {'already loaded' if preload else 'not yet loaded'}) [{fl}]", _set_name(which, local, preload),
                                    instance=dict(flavour=fl, argument="known-name", loaded=preload), clause="resolution through load_backend + write contract"))
